@@ -26,6 +26,7 @@
 import functools
 import keyword
 import re
+import unicodedata
 from .prologVisitor import prologVisitor
 from .errors import CompilerError
 
@@ -252,6 +253,14 @@ class YPPrologVisitor(prologVisitor):
 
     def visitClause(self,ctx):
         lhs = self.visitSimplepredicate(ctx.simplepredicate())
+        # the head's name becomes part of the name of a Python function
+        if not isinstance(lhs, Predicate) or not isinstance(lhs.functor.name, Atom):
+            raise CompilerError(self.context.current_source_file, ctx.simplepredicate(),
+                    f"'{ctx.simplepredicate().getText()}' cannot be the head of a clause")
+        name = lhs.name()
+        if not (name + '_0').isidentifier() or unicodedata.normalize('NFKC', name) != name:
+            raise CompilerError(self.context.current_source_file, ctx.simplepredicate(),
+                    f"predicate name {name!r} is not supported in the head of a clause")
         if ctx.predicateexpression():
             rhs = self.visitPredicateexpression(ctx.predicateexpression())
         else:
